@@ -22,6 +22,9 @@ import Heathcliff.Props.C13
 import Heathcliff.Props.C14
 import Heathcliff.Props.C17
 import Heathcliff.Props.C18
+import Heathcliff.Model.Evaluator
+import Heathcliff.Proofs.C07L
+import Heathcliff.Proofs.C08C
 namespace HC
 set_option warn.classDefReducibility false
 
@@ -628,5 +631,89 @@ theorem nv_error_spec : ∃ vs : List Int, vs.length = 4 ∧ (∀ v ∈ vs, -21 
 
 theorem nv_productive : Conc.Productive C17.natAlg true [0, 1, 0, 0, 1, 1, 0, 1] (Conc.init C17.natAlg 1 [3, 2]) := by
   repeat' (first | exact trivial | refine ⟨⟨_, rfl, rfl⟩, ?_⟩)
+
+/-! ## the level below ({97}) and the ciphertext-level bundles of the modulus-switching / budget proofs
+      (`c05u_ToolOK`, `c05u_BgvOK`, `c05u_IsNext`, `c05u_ChainOK`, `c05u_CtCanon` of Proofs/C05U.lean, `c07s_LevelQ` of Proofs/C07S.lean,
+      `CtCanon` / `c02v_PolysCanon` / `c02v_QsWF` of Proofs/C02V.lean).  Those files are not part of this project copy, so the FIELDS of the
+      bundles are proved here as plain conjunctions, in the order of the structure fields (each structure is then `⟨_, _, …⟩`). -/
+
+def nv_base97 : RNSBase := ⟨#[nv_m97], 97, #[1], #[⟨1, 190172619316593315⟩]⟩
+theorem nv_base97_new : RNSBase.new [nv_m97] = .ok nv_base97 := nv_ok_of_toOption (by decide +kernel)
+theorem nv_base97_wf : nv_base97.WF :=
+  (RNSBase.new_wf (by intro m hm; simp at hm; rcases hm with rfl; exact nv_m97_wf) (by decide) nv_base97_new).1
+def nv_tool1 : RNSTool := (RNSTool.new 4 nv_base97 nv_m17 [nv_a0, nv_a1, nv_a2, nv_a3]).toOption.getD default
+theorem nv_tool1_new : RNSTool.new 4 nv_base97 nv_m17 [nv_a0, nv_a1, nv_a2, nv_a3] = .ok nv_tool1 :=
+  nv_ok_of_isOk default (by decide +kernel)
+def nv_level1 : Level := ⟨.bfv, 4, 2, #[nv_m97], nv_m17, #[nv_t97], nv_tool1⟩
+theorem nv_level1_wf : nv_level1.WF := by
+  refine ⟨by rfl, by rfl, ?_⟩
+  intro i hi
+  have hi' : i < 1 := hi
+  interval_cases i
+  exact ⟨nv_t97_wf, by rfl, by rfl⟩
+
+/-- fields of `c05u_ToolOK nv_level` (bwf, base, tn, inv) — also `c07s_LevelQ nv_level` (bwf, base) -/
+theorem nv_toolOK_fields : nv_level.tool.baseQ.WF ∧ nv_level.tool.baseQ.base = nv_level.qs ∧ nv_level.tool.n = nv_level.n ∧
+    ∀ i, i < nv_level.size - 1 → WFOp (nv_level.q i) (nv_level.tool.invQLastModQ.getD i default) ∧
+      ((nv_level.tool.invQLastModQ.getD i default).operand * (nv_level.q (nv_level.size - 1)).value) % (nv_level.q i).value = 1 := by
+  have hb : nv_level.tool.baseQ = nv_base := nv_tool_shape.2.1
+  refine ⟨by rw [hb]; exact nv_base_wf, by rw [hb]; rfl, by decide +kernel, by decide +kernel⟩
+/-- fields of `c05u_ToolOK nv_level1` -/
+theorem nv_toolOK1_fields : nv_level1.tool.baseQ.WF ∧ nv_level1.tool.baseQ.base = nv_level1.qs ∧ nv_level1.tool.n = nv_level1.n ∧
+    ∀ i, i < nv_level1.size - 1 → WFOp (nv_level1.q i) (nv_level1.tool.invQLastModQ.getD i default) ∧
+      ((nv_level1.tool.invQLastModQ.getD i default).operand * (nv_level1.q (nv_level1.size - 1)).value) % (nv_level1.q i).value = 1 := by
+  have hb : nv_level1.tool.baseQ = nv_base97 := by decide +kernel
+  refine ⟨by rw [hb]; exact nv_base97_wf, by rw [hb]; rfl, by decide +kernel, by decide +kernel⟩
+/-- fields of `c05u_BgvOK nv_level` (tt, twf, invt_lt, invt): 14·113 ≡ 1 (mod 17) -/
+theorem nv_bgvOK_fields : nv_level.tool.t = nv_level.t ∧ nv_level.t.WF ∧ nv_level.tool.invQLastModT < nv_level.t.value ∧
+    (nv_level.tool.invQLastModT * (nv_level.q (nv_level.size - 1)).value) % nv_level.t.value = 1 :=
+  ⟨by decide +kernel, nv_m17_wf, by decide +kernel, by decide +kernel⟩
+/-- fields of `c05u_IsNext nv_level nv_level1` (size, n, q); with the two `ToolOK`s this is `c05u_ChainOK (fun c => if c = 0 then nv_level1 else nv_level) 1` -/
+theorem nv_isNext_fields : nv_level1.size + 1 = nv_level.size ∧ nv_level1.n = nv_level.n ∧
+    ∀ i, i < nv_level1.size → nv_level1.q i = nv_level.q i :=
+  ⟨by rfl, by rfl, by intro i hi; have hi' : i < 1 := hi; interval_cases i; rfl⟩
+/-- fields of `CtCanon nv_level ct` (two_le, le16, canon, cf) — `canon` alone is `c05u_CtCanon` -/
+theorem nv_ctCanon_fields : 2 ≤ (⟨#[nv_c0enc, nv_c1], false, 1⟩ : Ct).polys.size ∧ (⟨#[nv_c0enc, nv_c1], false, 1⟩ : Ct).polys.size ≤ 16 ∧
+    (∀ k, k < (⟨#[nv_c0enc, nv_c1], false, 1⟩ : Ct).polys.size → RnsCanon nv_level ((⟨#[nv_c0enc, nv_c1], false, 1⟩ : Ct).polys.getD k #[])) ∧
+    (⟨#[nv_c0enc, nv_c1], false, 1⟩ : Ct).cf = 1 := by
+  refine ⟨by decide, by decide, ?_, rfl⟩
+  intro k hk
+  have hk' : k < 2 := hk
+  interval_cases k
+  · exact nv_c0enc_canon
+  · exact nv_c1_canon
+
+/-- the model switches the BFV encryption down to {97}; the result is canonical there and still decrypts to m -/
+def nv_ct1 : Ct := ⟨#[#[#[69, 3, 49, 39]], #[#[73, 12, 45, 82]]], false, 1⟩
+theorem nv_modswitch : (modSwitchScaleNext nv_level ⟨#[nv_c0enc, nv_c1], false, 1⟩).toOption.map (fun c => (c.polys, c.ntt, c.cf))
+    = some (nv_ct1.polys, nv_ct1.ntt, nv_ct1.cf) := by decide +kernel
+theorem nv_ct1_canon : ∀ k, k < nv_ct1.polys.size → RnsCanon nv_level1 (nv_ct1.polys.getD k #[]) := by decide +kernel
+theorem nv_ct1_decrypt : bfvDecrypt nv_level1 nv_sk nv_ct1 = .ok #[3, 16, 0, 9] := nv_ok_of_toOption (by decide +kernel)
+/-- upward switching is refused -/
+theorem nv_switch_up : switchSteps 0 1 = .error .refused := by rfl
+
+/-! ## purely numeric hypothesis sets (C01, C05, C07, C08) -/
+
+/-- C05 `bfv_switch_message`: t = 17, Q' = 97, q_L = 113, x = 113·17 + 5, m = 3, ν = −141, E = 1 -/
+theorem nv_bfv_switch : Spec.roundDiv ((17 : Nat) * (17 : Int)) 97 = 3 :=
+  bfv_switch_message (t := 17) (Q' := 97) (qL := 113) (x := 1926) (x' := 17) (m := 3) (ν := -141) (ρ := 5) (E := 1)
+    (by decide) (by decide) (by decide) (by decide) (by decide) (by decide)
+
+/-- C01 `bgv_round_trip_cf_bounded`: t = 17, correction factor 3, m = 16, noise −3, q = 10961 -/
+theorem nv_bgv_cf : (Spec.imod (Spec.centred (Spec.imod (bgvLift 17 ((3 * 16) % 17) + 17 * (-3)) 10961) 10961) 17 * Spec.invMod 3 17) % 17 = 16 :=
+  bgv_round_trip_cf_bounded (q := 10961) (t := 17) (m := 16) (cf := 3) (v := -3) (by decide) (by decide) (by decide) (by decide)
+    (by decide) rfl
+
+/-- C08 `Limbs` and the multi-word theorems: (2^64 − 1, 5) · (3, 2^63) truncated to 3 limbs; division with remainder -/
+theorem nv_limbs : Limbs [2^64 - 1, 5] ∧ Limbs [3, 2^63] := by
+  constructor <;> (intro x hx; simp at hx; rcases hx with rfl | rfl <;> decide)
+theorem nv_multiplyUint : ∃ r, multiplyUint [2^64 - 1, 5] [3, 2^63] 3 = .ok r ∧ r.length = 3 ∧ Limbs r ∧
+    toNat r = (toNat [2^64 - 1, 5] * toNat [3, 2^63]) % 2^(64*3) :=
+  multiplyUint_spec (by decide) nv_limbs.1 nv_limbs.2
+theorem nv_divideUint : ∃ r q, divideUint [2^64 - 1, 5] [3, 2^63] 2 = .ok (r, q) ∧ toNat [2^64 - 1, 5] = toNat q * toNat [3, 2^63] + toNat r ∧
+    toNat r < toNat [3, 2^63] := by
+  obtain ⟨r, q, h1, _, _, _, _, h6, h7⟩ := divideUint_spec (a := [2^64 - 1, 5]) (d := [3, 2^63]) (n := 2) (by decide) nv_limbs.1 nv_limbs.2
+    rfl rfl (by decide)
+  exact ⟨r, q, h1, h6, h7⟩
 
 end HC
